@@ -108,6 +108,49 @@ def h_cancel_tee(n: int, j: int, x: int, which: int):
     return finish(ok, D.cancelled, ("tee", len(items), len(got0), len(got), D.nsusp if D.cancelled else -1))
 
 
+# ---- groupby ------------------------------------------------------------------------------
+def h_cancel_groupby(n: int, k0: int, k1: int, k2: int, steps: int, gsteps: int, x: int):
+    """
+    pre: 0 <= n <= 3 and 1 <= steps <= 3 and 0 <= gsteps <= 2 and 1 <= x <= 10
+    post: _[0]
+    post: not _[1]
+    """
+    reset_run()
+    keys = [k0, k1, k2]
+    items = []
+    for j in range(n):
+        items.append(Item(keys[j], "0.%d" % j))
+    Wa = World("a", susp=1)
+    cancel = Cancel("cancelled")
+    D = Driver(Wa, cancel_at=x, cancel_exc=cancel)
+    src = Wa.source(items, P("fl", "agen"))
+    st = Wa.srcs[0]
+    g = A.groupby(src, key=Wa.fn("key", lambda it: it.key, P("ffl", "adef")))
+    ok = True
+    grp = None
+    end = None
+    for i in range(steps):
+        got, end = D.take(g, 1)
+        if got:
+            grp = got[0][1]
+        if end is not None:
+            break
+    if grp is not None and end is None:
+        _g, end = D.take(grp, gsteps)
+    if D.cancelled:
+        if end is not cancel:
+            ok = fail("groupby:cancellation-not-propagated", end) and ok
+        D2 = Driver(Wa)
+        r = D2.call(g.aclose())
+        if r[0] == "exc":
+            ok = fail("groupby:aclose-after-cancel-raised-%s" % type(r[1]).__name__) and ok
+        if not st.is_released():
+            ok = fail("groupby:source-not-released-after-cancel") and ok
+    for v in Wa.viol:
+        ok = fail("groupby:%s" % v) and ok
+    return finish(ok, D.cancelled, ("groupby", len(items), D.nsusp if D.cancelled else -1))
+
+
 # ---- lru_cache ----------------------------------------------------------------------
 def h_cancel_lru(x: int, ms: int, pre: int):
     """
@@ -358,6 +401,7 @@ def _grid_cancel():
 
 GRID = {
     "h_cancel": _grid_cancel,
+    "h_cancel_groupby": lambda: [(n, 1, 1, 2, s, g, x) for n in range(4) for s in (1, 2, 3) for g in (0, 1) for x in range(1, 9)],
     "h_cancel_tee": lambda: [(n, j, x, w) for n in range(3) for j in range(3) for x in range(1, 9) for w in (0, 1)],
     "h_cancel_lru": lambda: [(x, ms, pre) for x in (1, 2, 3) for ms in range(3) for pre in range(3)],
     "h_cancel_cprop": lambda: [(x, w) for x in range(1, 6) for w in (False, True)],
@@ -395,6 +439,7 @@ def jobs(tier):
         for op in AGGS1:
             add("h_cancel", op=op, S=1, N=N1, X=(1, 2 * N1 + 2), fl=fl, ffl=ffl)
         add("h_cancel_tee", N=2, fl=fl)
+        add("h_cancel_groupby", fl=fl, ffl=ffl)
         add("h_cancel_scoped", fl=fl)
     add("h_cancel_lru")
     add("h_cancel_cprop")
@@ -403,7 +448,7 @@ def jobs(tier):
 
 
 BOUNDS = {
-    "quick": "every source pull, async callable, lock acquire/release and context manager suspends once; Cancel(BaseException) thrown at symbolic suspension k=1..K (K covers every suspension of the execution); N<=2 items per source, S<=3; sources async generators / class-based with aclose; tee with lock (other child ahead by 0..2), lru_cache (maxsize None/1/2, 0..2 earlier entries), cached_property with and without lock, ExitStack with 2 context managers + callback + pushed exit, scoped_iter (plain and nested)",
+    "quick": "every source pull, async callable, lock acquire/release and context manager suspends once; Cancel(BaseException) thrown at symbolic suspension k=1..K (K covers every suspension of the execution); N<=2 items per source, S<=3; sources async generators / class-based with aclose; groupby with async key (1..3 advances, 0..2 group items); tee with lock (other child ahead by 0..2), lru_cache (maxsize None/1/2, 0..2 earlier entries), cached_property with and without lock, ExitStack with 2 context managers + callback + pushed exit, scoped_iter (plain and nested)",
     "thorough": "N<=3",
 }
 OUTSIDE = ["more than one cancellation", "cancellation while the owner's own aclose() is running", "lengths above the bound"]
